@@ -48,6 +48,17 @@ def run(ctx):
     import C05
     dyn = [u for u in C05.directed_units(rng, ws[:2], 0) if ' a[n];' in u[0] or ' a[j];' in u[0]]
     sweeps.diff_sweep(ctx, 'dynamic array lengths over the boundary grid (negative, zero, huge) and indices', dyn, extra=halts_extra(ctx), monitor=True)
+    # global arrays at and beyond the largest length each element type admits: whatever the compiler accepts must stay memory safe for
+    # every index an input can supply (a bool array longer than the signed range would turn the bit offset of a large index negative)
+    big = []
+    for w in (2,):
+        M = 1 << (8 * w)
+        for el, val, lens in (('bool', 'true', [(M >> 1) - 1, M >> 1, (M >> 1) + 8, M - 1, M - 8]), ('byte', "'b'", [(M >> 1) - 300, (M >> 1) - 1, M >> 1]),
+                              ('int', '5', [(M >> 1) // w - 200, (M >> 1) // w, (M >> 1) // w + 1]), ('string', '"s"', [(M >> 1) // w - 200, (M >> 1) // w])):
+            for n in lens:
+                src = '%s g[%d];\nempty @is_you(int i, int j) { write("<"); write(j); g[i] = %s; write(g[i]); write(">"); write(j); }\n' % (el, n, val)
+                big.append((src, [Cfg((str(i), '77'), w, 8, False) for i in (0, 1, n - 1, n, n + 1, -1, -8, -9, -32, -64, (M >> 1) - 1, -(M >> 1), -(M >> 1) + 7, -(M >> 2))]))
+    sweeps.diff_sweep(ctx, 'global arrays at the length limits, indices from the input over the whole word', big, extra=halts_extra(ctx), monitor=True)
     mon_units = program_units(rng, 60 if q else 600, ['arrays', 'strings', 'calls', 'globals', 'overloads', 'tt', 'faults'], ws, cfgs_per=3, seed_base=ctx.seed + 401)
     sweeps.diff_sweep(ctx, 'aliasing / evaluation-order corpus (global index or operand modified by the other operand, same array passed twice)', sweeps.alias_units(ws), extra=halts_extra(ctx), monitor=True)
     sweeps.diff_sweep(ctx, 'entitlement monitor on generated programs (all features)', mon_units, extra=halts_extra(ctx), monitor=True)
